@@ -356,7 +356,13 @@ def values_close(a, b, tol=1e-9):
     if isinstance(a, (complex, _np.complexfloating)) or isinstance(
             b, (complex, _np.complexfloating)):
         try:
-            return abs(complex(a) - complex(b)) <= tol * max(1, abs(complex(b)))
+            ca, cb = complex(a), complex(b)
+            parts = (ca.real, ca.imag, cb.real, cb.imag)
+            if all(q == q and abs(q) != float("inf") for q in parts):
+                return abs(ca - cb) <= tol * max(1, abs(cb))
+            # infinities / nans: inf - inf is nan, so compare part by part
+            return (values_close(ca.real, cb.real, tol)
+                    and values_close(ca.imag, cb.imag, tol))
         except Exception:
             return False
     if isinstance(a, (float, _np.floating)) or isinstance(b, (float, _np.floating)):
